@@ -213,6 +213,12 @@ Definition flop (lst : list v) : list (list v) :=
         (seq 0 len)
   end.
 
+(* flop on explicit columns, generic in the element type (used at the object level by
+   ChannelList._multichannel_perform): row i takes column c at i mod |c|; an empty column gives `empty` *)
+Definition flop_rows {A} (empty dflt : A) (cols : list (list A)) : list (list A) :=
+  let len := fold_right (fun c m => Nat.max (length c) m) 0 cols in
+  map (fun i => map (fun c => match c with [] => empty | _ => nth (i mod length c) c dflt end) cols) (seq 0 len).
+
 (* ---------------------------------------------------------------------- *)
 (* canonical comparison of values (used by the correspondence)            *)
 Fixpoint v_eqb (a b : v) : bool :=
